@@ -175,7 +175,7 @@ Theorem C05_symlink_adds_one_entry : forall e t l t', FsTree.wf t -> FsTree.p_sy
 Proof. exact TreeRenameP.symlink_ok. Qed.
 Print Assumptions C05_symlink_adds_one_entry.
 
-(* ANY sequence over the whole set of modelled operations (the five above and Rename, PosixRename, Link, Symlink): every tree
+(* ANY sequence over the whole set of modelled operations (the five above and Rename, PosixRename, Link, Symlink, OpenFile / Create): every tree
    on the way is well formed and the Client's way of doing them gives package os's outcomes and tree, step for step *)
 Theorem C05_all_sequences_stay_well_formed : forall ops t cs t', FsTree.wf t ->
   TreeRenameP.run_ops2 TreeRenameP.os_op2 t ops = Some (cs, t') -> FsTree.wf t'.
